@@ -879,8 +879,12 @@ class Driver:
         elif real_cls in ("zx", "cartesian"):
             names = ("1",)
         nboxes = cfg["nboxes"]
-        return B.gen_monoidal(rng, nboxes, real_cls, names, cfg["maxw"],
+        spec = B.gen_monoidal(rng, nboxes, real_cls, names, cfg["maxw"],
                               cfg["p_connected"], cfg["p_degenerate"], cfg["p_samename"])
+        if real_cls in ("monoidal", "rigid") and self.prop == "C05" and spec["boxes"] \
+                and rng.random() < 0.2:
+            spec = B.with_diagram_boxes(rng, spec)
+        return spec
 
     def m2seed(self):
         return self.s["gen"].getrandbits(32)
